@@ -6,7 +6,7 @@ import (
 
 func init() {
 	register("C04", []string{"."}, runC04)
-	propExplain["C04"] = "Decides the pinning clause of C04: every read-state / version reference taken in package pebble (loadReadState, readState.ref, Version.Ref) is, on every path to every return, released or handed to an owner (iterator, snapshot, compaction) — a missing pin lets compactions delete files under a live iterator, a missing release is the leak of C39/C47; an iterator's sequence number and pinned view are written only at construction/clone/close; the view is pinned before the visible sequence number is read. Does not decide batch-view refresh semantics."
+	propExplain["C04"] = "Decides the pinning clause of C04: every read-state / version reference taken in package pebble (loadReadState, readState.ref, Version.Ref) is, on every path to every return, released or handed to an owner (iterator, snapshot, compaction) — a missing pin lets compactions delete files under a live iterator, a missing release is the leak of C39/C47; an iterator's sequence number and pinned view are written only at construction/clone/close; the view is pinned before the visible sequence number is read. (K2) every mutator of an indexed batch that inserts into its range-deletion / range-key index (directly or through the deferred operation) has cleared the batch's cached fragments of that kind on the same path, so that iterators created or refreshed afterwards rebuild them. Does not decide batch-view refresh semantics."
 }
 
 func acquireSites(c *Ctx, m M, pkgPath string, f func(fn *ssa.Function, call *ssa.Call)) int {
@@ -40,6 +40,48 @@ func runC04(c *Ctx) {
 		"p.(*DB).newIter", "p.(*Iterator).CloneWithContext", "p.NewExternalIterWithContext", "p.(*DB).getInternal", "p.(*Iterator).Close")
 	// C01.O1 (shared): view before seqnum
 	viewBeforeSeqNum(c, "C04.O1")
+	runC04K2(c)
+}
+
+// runC04K2: an indexed batch caches its fragmented range deletions / range keys (b.tombstones,
+// b.rangeKeys, valid up to …SeqNum); iterators created or refreshed later are initialised from
+// that cache. Every mutator that is about to insert into the range-del / range-key index — an
+// Add on the index, or handing the index to the deferred operation — has cleared the
+// corresponding cache on the same path, unconditionally with respect to anything but the entry's
+// own kind. Otherwise an iterator refreshed afterwards sees the new point keys but not the new
+// range keys.
+func runC04K2(c *Ctx) {
+	type pair struct{ cache, index string }
+	n := 0
+	for _, pr := range []pair{{"rangeKeys", "rangeKeyIndex"}, {"tombstones", "rangeDelIndex"}} {
+		cacheF := c.Field("C04.K2", "p.batchInternal."+pr.cache)
+		indexF := c.Field("C04.K2", "p.batchInternal."+pr.index)
+		deferredIndexF := c.Field("C04.K2", "p.DeferredBatchOp.index")
+		cleared := And(StoreTo(cacheF), Pred("= nil", func(in ssa.Instruction) bool { return isNilConst(in.(*ssa.Store).Val) }))
+		insertUse := Pred("insertion through "+pr.index, func(in ssa.Instruction) bool {
+			switch x := in.(type) {
+			case *ssa.Call:
+				ci := infoOfCommon(x.Common())
+				return ci.Short == "Add" && ci.Recv != nil && isLoadOfField(ci.Recv, indexF)
+			case *ssa.Store:
+				return fieldOfValue(x.Addr) == deferredIndexF && isLoadOfField(x.Val, indexF)
+			}
+			return false
+		})
+		for _, fn := range pebbleFuncs(c) {
+			if len(instrs(fn, insertUse)) == 0 {
+				continue
+			}
+			refilled := And(StoreTo(cacheF), Pred("≠ nil", func(in ssa.Instruction) bool { return !isNilConst(in.(*ssa.Store).Val) }))
+			fl := NewFlow(c.P).After("cleared:"+pr.cache, cleared).KillAfter("cleared:"+pr.cache, refilled)
+			fl.MaxDepth = 0
+			res := fl.Analyze(fn, emptyState())
+			n += c.Require("C04.K2", res, insertUse, "the cached "+pr.cache+" fragments are cleared on every path that inserts into "+pr.index, []string{"cleared:" + pr.cache})
+		}
+	}
+	if n < 4 {
+		c.Unresolved("C04.K2", "fewer than 4 insertions into the batch's range-del / range-key index found")
+	}
 }
 
 // runC04Pairing: read-state / version reference pairing (shared with C39, C37, C47).
